@@ -17,6 +17,7 @@
 #include "ops_c03.c"
 #include "ops_c09.c"
 #include "ops_c17.c"
+#include "ops_c01.c"
 
 static void on_alarm(int sig)
 {
@@ -50,6 +51,7 @@ int main(void)
     if (!done) done = dispatch_c03(&t);
     if (!done) done = dispatch_c09(&t);
     if (!done) done = dispatch_c17(&t);
+    if (!done) done = dispatch_c01(&t);
     if (!done) printf("R skip\n");
     printf("E\n");      /* end of this op: everything before a crash belongs to the op in flight */
     fflush(stdout);
